@@ -97,6 +97,15 @@ def cases(rng, quick=True):
     out.append(case('sig', b'(' * 32 + b'a' * 32 + b'i' + b')' * 32))
     out.append(case('sig', b'(' * 32 + b'a' * 33 + b'i' + b')' * 32))
     out.append(case('sig', b'a(' * 32 + b'ai' + b')' * 32))
+    # mis-nested containers: every string over {s, a, (, ), {, }} of length 5..7 (8) whose bracket COUNTS balance and
+    # whose dict entries follow an array -- the strings a validator that counts instead of nesting would let through
+    for n in range(5, 8 if quick else 9):
+        for t in itertools.product([b's', b'a', b'(', b')', b'{', b'}'], repeat=n):
+            s = b''.join(t)
+            if s.count(b'(') == s.count(b')') and s.count(b'{') == s.count(b'}') and s.count(b'{') >= 1 \
+                    and s.count(b'(') >= 1 and s.count(b'a{') == s.count(b'{') and b'()' not in s:
+                out.append(case('sig', s))
+                out.append(case('sig1', s))
     # random strings around the limit
     for _ in range(200 if quick else 2000):
         g = rng.choice(['bus', 'ifc', 'mem', 'err', 'path'])
